@@ -151,6 +151,29 @@ def mask_rules(chk, P, which_list=("input", "expected"), only_widths=None):
     chk.floor("FOLD", "folded (site x width x mode) cases", cases, 2 * len(which_list) * (64 if only_widths is None else len(only_widths)))
 
 
+def expected_x_passes_through(chk, P):
+    """"`X` passes through unchanged" on the expected path has a second necessary condition beside the generators' table:
+    the row expansion must not rewrite an expected-only `X` into 0/1 before the generators see it.  expand_x selects an
+    entry iff it is X *and* its column is an input column, and entry_is_input is exactly input_indices.any(indexes(i))
+    (C05's conditions, carried here: a column test that aliases columns — a bit set indexed modulo 64 — breaks C07's clause too)."""
+    from ..core import tab as _tab
+    TD = "data_row_iterator::DataRowIteratorTestData::"
+    fb = P.body(TD + "expand_x")
+    n = 0
+    for c in (P.f.closures_of(TD + "expand_x") if fb is not None else []):
+        good, got = panrules.selector_ok(P, c, "X")
+        n += 1
+        chk.require(good, "GUARD", "GUARD:expand_x:only-input-X-is-expanded", "Some(i) iff entry == X && entry_is_input(i): an expected-only X reaches the generator as X", "expand_x selects entries by %s" % (got,))
+    chk.floor("GUARD", "expand_x selector", n, 1)
+    eii = P.body(TD + "entry_is_input")
+    if chk.anchor("entry_is_input", eii):
+        r = set(canon(P.sl(eii).ret(rb)) for rb in P.cfg(eii).return_blocks())
+        cl = P.f.closures_of(eii.name)
+        pt = _tab.predicate_table(P, cl[0]) if cl else set()
+        good = r == {"Iterator::any([T]::iter(self.input_indices), closure({closure#0}))"} and pt == {(frozenset(), "EntryIndex::indexes(elem([T]::iter(self.input_indices)), entry_index)")}
+        chk.require(good, "TAB", "TAB:entry_is_input:exact-column-test", "input_indices.any(|e| e.indexes(i)) — no aliasing of columns", "entry_is_input is %s with %s" % (sorted(r), sorted(pt, key=str)))
+
+
 def run(chk, ctx):
     P = Prog(ctx["facts"])
     from .iter_rules import plumbing_rule
@@ -162,6 +185,7 @@ def run(chk, ctx):
                        "TAB (Z and X pass through), const (virtual signals are built with bits: 64).")
     chk.trusted = ["rustc MIR; two's-complement identity n & (2^b - 1) == n mod 2^b"]
     mask_rules(chk, P)
+    expected_x_passes_through(chk, P)
     # virtual signals are 64 bits wide
     ws = P.body(c11.WS)
     if ws is not None:
